@@ -81,8 +81,7 @@ end NeoModel.Tokens
 namespace NeoModel.Tokens
 
 theorem block_dinv (s : St) (idx : Nat) : DInv (step s (.block idx)) := by
-  have : step s (.block idx) = exec s (.block idx) := by
-    unfold step; simp [Op.isCall]
+  have : step s (.block idx) = exec s (.block idx) := step_eq_exec _ _ rfl
   rw [this]
   simp only [exec]
   have he : (neoOnPersist { s.env with index := idx } { s.cur with events := [] }).events = [] := by
